@@ -829,9 +829,13 @@ def nontrivial(case, impl, lean):
 
 
 def finding_key(case, impl, lean):
+    """F7 (fixed by a947fd59): the verdict of issue_instant_ok was ignored, so requests issued *any* time ago were
+    processed.  The key is given only to its signature: nothing else wrong with the request, IssueInstant a year or
+    more off (a merely widened or one-sided window does not get it)."""
     why = lean.get("why") or ""
-    if impl.get("r") == "processed" and why.startswith("processed although IssueInstant"):
-        # fixed by a947fd59; named so that its return is recognised
+    off = (case.get("instant") or {}).get("off")
+    if (impl.get("r") == "processed" and why.startswith("processed although IssueInstant")
+            and isinstance(off, int) and abs(off) >= 365 * DAY):
         return "C07/stale-issue-instant-processed"
     return None
 
